@@ -130,6 +130,86 @@ def read_fragments(path):
         return []
 
 
+FUZZ_FAIL_RE = re.compile(r"Failing input written to (testdata/fuzz/\S+)")
+FUZZ_STAT_RE = re.compile(r"fuzz: elapsed: (\S+), execs: (\d+) .*new interesting: (\d+) \(total: (\d+)\)")
+
+
+def build_fuzz(prop, target):
+    os.makedirs(BUILD, exist_ok=True)
+    out = os.path.join(BUILD, "%s.fuzz.%d.test" % (prop.lower(), os.getpid()))
+    cmd = ["go", "test", "-c", "-tags", "verif", "-vet=off", "-fuzz=" + target, "-o", out, "./props/" + prop.lower()]
+    p = subprocess.run(cmd, cwd=HARNESS, env=goenv(), capture_output=True, text=True)
+    if p.returncode != 0:
+        log("FUZZ BUILD FAILED:\n" + p.stdout + p.stderr)
+        return None
+    return out
+
+
+def run_native_fuzz(prop, fz, scratch, notes, violations, inconclusive):
+    """Coverage-guided campaign of the thorough tier. It cannot be pinned to VERIF_SEED: the saved input is the reproducible unit."""
+    binary = build_fuzz(prop, fz["target"])
+    if binary is None:
+        inconclusive.append("native fuzz target %s does not build" % fz["target"])
+        return
+    wd = os.path.join(scratch, "fuzz")
+    os.makedirs(wd, exist_ok=True)
+    env = goenv()
+    env.update(VERIF_ROOT=ROOT, VERIF_WORKDIR=wd, TMPDIR=wd)
+    lp = os.path.join(wd, "log.txt")
+    args = [binary, "-test.run", "^$", "-test.fuzz", "^" + fz["target"] + "$", "-test.fuzztime", "%ds" % fz["seconds"],
+            "-test.fuzzcachedir", os.path.join(wd, "cache"), "-test.parallel", str(fz.get("workers", 16)), "-test.timeout", "%ds" % (fz["seconds"] + 300)]
+    try:
+        with open(lp, "w") as lf:
+            rc = subprocess.run(args, cwd=wd, env=env, stdout=lf, stderr=subprocess.STDOUT, timeout=fz["seconds"] + 400).returncode
+    except subprocess.TimeoutExpired:
+        rc = -9
+    out = open(lp, errors="replace").read()
+    stats = FUZZ_STAT_RE.findall(out)
+    if stats:
+        el, execs, _, total = stats[-1]
+        notes["native_fuzz"] = {"target": fz["target"], "elapsed": el, "executions": int(execs), "interesting_inputs": int(total), "workers": fz.get("workers", 16)}
+    m = FUZZ_FAIL_RE.search(out)
+    if m:
+        src = os.path.join(wd, m.group(1))
+        d = os.path.join(ROOT, "replays", prop)
+        os.makedirs(d, exist_ok=True)
+        dst = os.path.join(d, "fuzz-" + os.path.basename(src))
+        shutil.copy(src, dst)
+        msg = next((l.strip() for l in out.splitlines() if "VERIF-FAIL" in l), "native fuzz target failed")
+        violations.append(("fuzz", msg, dst))
+    elif rc != 0:
+        inconclusive.append("native fuzz exit %d: %s" % (rc, out[-800:]))
+    try:
+        os.remove(binary)
+    except OSError:
+        pass
+
+
+def replay_fuzz_input(prop, spec, path, scratch):
+    fz = spec.get("fuzz")
+    if not fz:
+        log("property has no native fuzz target")
+        return 2
+    binary = build_fuzz(prop, fz["target"])
+    if binary is None:
+        return 2
+    wd = os.path.join(scratch, "fuzzreplay")
+    cdir = os.path.join(wd, "testdata", "fuzz", fz["target"])
+    os.makedirs(cdir, exist_ok=True)
+    name = os.path.basename(path)
+    shutil.copy(path, os.path.join(cdir, name))
+    env = goenv()
+    env.update(VERIF_ROOT=ROOT, VERIF_WORKDIR=wd, TMPDIR=wd)
+    p = subprocess.run([binary, "-test.run", "^%s$/^%s$" % (fz["target"], name), "-test.timeout", "120s"], cwd=wd, env=env, capture_output=True, text=True)
+    os.remove(binary)
+    if p.returncode != 0:
+        sys.stdout.write((p.stdout + p.stderr)[-3000:])
+        print("VIOLATION property=%s replay=%s" % (prop, os.path.abspath(path)))
+        return 1
+    print("replay passed: property=%s replay=%s" % (prop, path))
+    return 0
+
+
 def drive(a, prop, spec, seed, binary, scratch, t_start):
     tier = spec[a.tier]
     timeout = tier.get("timeout", 600)
@@ -137,6 +217,8 @@ def drive(a, prop, spec, seed, binary, scratch, t_start):
     inconclusive = []
 
     # ---- replay mode -------------------------------------------------------------------
+    if a.replay and open(a.replay, "rb").read(16).startswith(b"go test fuzz v1"):
+        return replay_fuzz_input(prop, spec, a.replay, scratch)
     if a.replay:
         env, wd = base_env(a, prop, seed, scratch, 0, "replay")
         env["VERIF_REPLAY"] = os.path.abspath(a.replay)
@@ -225,7 +307,10 @@ def drive(a, prop, spec, seed, binary, scratch, t_start):
         if os.environ.get("VERIF_VERBOSE"):
             sys.stderr.write(out[-3000:])
 
-    ok_evidence = write_evidence(prop, spec, a.tier, seed, frags, violations, inconclusive, time.time() - t_start)
+    extra_notes = {}
+    if a.tier == "thorough" and spec.get("fuzz") and not violations:
+        run_native_fuzz(prop, spec["fuzz"], scratch, extra_notes, violations, inconclusive)
+    ok_evidence = write_evidence(prop, spec, a.tier, seed, frags, violations, inconclusive, time.time() - t_start, extra_notes)
 
     if violations:
         seen = set()
@@ -279,7 +364,7 @@ def save_log(prop, out, tag):
     return path
 
 
-def write_evidence(prop, spec, tier, seed, frags, violations, inconclusive, wall):
+def write_evidence(prop, spec, tier, seed, frags, violations, inconclusive, wall, extra_notes=None):
     evals = sum(fr.get("evaluations", 0) for fr in frags)
     nontriv = set()
     classes, excluded, requested, ran = {}, {}, {}, {}
@@ -307,6 +392,7 @@ def write_evidence(prop, spec, tier, seed, frags, violations, inconclusive, wall
         for c in fr.get("missing_essential") or []:
             if classes.get(c, 0) == 0:
                 missing.add(c)
+    notes.update(extra_notes or {})
     ev = {
         "property_id": prop, "tier": tier, "seed": seed, "level": spec["level"],
         "coverage": {
